@@ -22,7 +22,19 @@ Sources == {"X", "Y", "E"}
 NoDamage == [class |-> "none", k |-> 0]
 \* classes of malformed streams: cut at the boundary after top-level field k (k = NHeader + NBody is the whole
 \* stream), cut in the middle of field k, list length prefix inflated, type tag of field k flipped, trailing bytes
-Damages == [class : {"cut"}, k : 0..(NHeader + NBody)] \cup
+\* header fields that no body hash protects, re-encoded with a malformed value (the rest of the stream is X's own
+\* and hash-consistent, so decoding reaches the very last step).  Proposer bytes must be an address (21 bytes with
+\* type 0 or 1), a bare 20-byte id, or absent:
+HdrReject == {"hdr:proposer:19", "hdr:proposer:22", "hdr:proposer:type2", "hdr:proposer:type255"}
+HdrOk == {"hdr:proposer:20", "hdr:proposer:nil"}          \* well-formed variants: another, decodable header
+\* integers longer than their type, hashes of odd length, a filter of odd length, an empty proposer string:
+\* error or another decodable header, but never a crash
+HdrNoCrash == {"hdr:proposer:empty", "hdr:version:long", "hdr:height:long", "hdr:timestamp:long",
+               "hdr:previd:odd", "hdr:voteshash:odd", "hdr:nextvalidatorshash:odd", "hdr:result:odd",
+               "hdr:logsbloom:odd", "hdr:nsfilter:odd"}
+HdrClasses == HdrReject \cup HdrOk \cup HdrNoCrash
+Damages == [class : HdrClasses, k : {0}] \cup
+           [class : {"cut"}, k : 0..(NHeader + NBody)] \cup
            [class : {"cutmid", "fliptag"}, k : 1..(NHeader + NBody)] \cup
            [class : {"inflate"}, k : {1, 2}] \cup [class : {"tail"}, k : {0}]
 
@@ -46,7 +58,9 @@ DecodeRes ==
   ELSE IF dmg.class = "cut" THEN (IF dmg.k = NHeader + NBody THEN "ok" ELSE "reject")
   ELSE IF dmg.class = "cutmid" THEN "reject"
   ELSE IF dmg.class = "tail" THEN "ok"
-  ELSE "nocrash"            \* inflate, fliptag: must not crash; if accepted the body must still match the header
+  ELSE IF dmg.class \in HdrReject THEN "reject"
+  ELSE IF dmg.class \in HdrOk THEN "ok"
+  ELSE "nocrash"            \* inflate, fliptag, HdrNoCrash: must not crash; if accepted the body must still match the header
 
 Init == /\ x \in Shapes /\ y \in Shapes /\ src = [p \in Parts |-> "X"]
         /\ dmg = NoDamage /\ done = FALSE /\ hist = <<>>
@@ -75,6 +89,9 @@ Binding == [][(Stepped /\ dmg = NoDamage /\ Last.res = "ok") => \A p \in Parts :
 ForeignPartRejected ==
   [][(Stepped /\ dmg = NoDamage /\ \E p \in BodyParts : Content(p) = "o") => Last.res = "reject"]_vars
 \* a stream that ends early is rejected
+\* a malformed proposer is an error for the receiver of the block, whatever else is consistent
+MalformedProposerRejected ==
+  [][(Stepped /\ dmg.class \in HdrReject) => Last.res = "reject"]_vars
 TruncatedRejected ==
   [][(Stepped /\ dmg.class \in {"cut", "cutmid"} /\ ~(dmg.class = "cut" /\ dmg.k = NHeader + NBody)) => Last.res = "reject"]_vars
 =============================================================================
